@@ -248,8 +248,32 @@ def guard(ctx: Any) -> List[Ob]:
             return v
 
         rvals = [_unwrap(r.value) for r in walk_local_ordered(hq_m.node) if isinstance(r, ast.Return) and r.value is not None]
+        # the other way to say it: no flag at all, the predicate scans the decoded questions for one with the QU bit
+        # (`for q in self._questions: if q.unique: return True` ... `return False`).  Then the list it scans takes the flag's
+        # place: it is filled only while the question section is decoded
+        hme = hq_m.params[0]
+        scans = [lp for lp in walk_local_ordered(hq_m.node) if isinstance(lp, ast.For) and isinstance(lp.target, ast.Name) and self_attr(lp.iter, hme) is not None]
+        if len(scans) == 1 and sorted(norm(v) for v in rvals) == ['False', 'True']:
+            lp = scans[0]
+            qv = lp.target.id
+            body_ok = (len(lp.body) == 1 and isinstance(lp.body[0], ast.If) and not lp.body[0].orelse and norm(lp.body[0].test) in (f'{qv}.unique', f'{qv}.unicast')
+                       and len(lp.body[0].body) == 1 and isinstance(lp.body[0].body[0], ast.Return) and norm(lp.body[0].body[0].value) == 'True' and not lp.orelse)
+            lst = self_attr(lp.iter, hme)
+            rq_, ro_ = inc.methods.get('_read_questions'), inc.methods.get('_read_others')
+            if rq_ is None or ro_ is None:
+                raise AnalysisError('anchor vanished: question / record readers')
+            fillers = [g for g in inc.methods.values() if g.name != '__init__' and any(isinstance(c, ast.Call) and call_name(c) in ('append', 'extend', 'insert') and isinstance(c.func, ast.Attribute) and (self_attr(c.func.value, g.params[0]) == lst or (isinstance(c.func.value, ast.Name) and any(isinstance(st_, ast.Assign) and norm(st_.targets[0]) == c.func.value.id and self_attr(st_.value, g.params[0]) == lst for st_ in walk_local_ordered(g.node)))) for c in walk_local_ordered(g.node))]
+            from_records_ = ctx.cg.closure([ro_], include_deferred=False)
+            from_questions_ = ctx.cg.closure([rq_], include_deferred=False)
+            obs.append(ob(R, hq_m, lp, 'the QU predicate the duplicate guard consults is true exactly when a decoded question carries the QU bit', body_ok))
+            for g in fillers:
+                okq = g in from_questions_ and g not in from_records_
+                obs.append(ob(R, g, f'self.{lst}.append(...)', 'the list of questions the QU predicate scans is filled only from the decoding of the question section, never while records are read', okq))
+            if not fillers:
+                raise AnalysisError('anchor vanished: where the question list is filled')
+            flag = ''
         rets = [self_attr(v, hq_m.params[0]) for v in rvals]
-        flag = rets[0] if len(rets) == 1 else None
+        flag = '' if flag == '' else (rets[0] if len(rets) == 1 else None)
         if flag is None and len(rvals) == 1:
             # the predicate reads more than the one flag: whatever else makes it true widens the exemption from duplicate
             # suppression beyond `a query containing a QU question` (a QM probe delivered twice is then defended twice)
@@ -258,9 +282,9 @@ def guard(ctx: Any) -> List[Ob]:
             raise StructuralViolation(hq_m.module.rel if hasattr(hq_m.module, 'rel') else 'src/zeroconf/_protocol/incoming.py', hq_m.qual, norm(rvals[0]), 'the QU predicate the duplicate guard consults is exactly the flag set while the question section is decoded', 'the predicate is a compound expression: the exemption of the guard covers more than queries with a QU question')
     if flag is None:
         raise AnalysisError('anchor vanished: the attribute returned by DNSIncoming.has_qu_question')
-    setters = [g for g in inc.methods.values() if any(self_attr(t, g.params[0]) == flag and not (isinstance(st, ast.Assign) and isinstance(st.value, ast.Constant) and st.value.value is False) for t, st in attr_stores(g.node)) and g.name != '__init__']
+    setters = [g for g in inc.methods.values() if flag and any(self_attr(t, g.params[0]) == flag and not (isinstance(st, ast.Assign) and isinstance(st.value, ast.Constant) and st.value.value is False) for t, st in attr_stores(g.node)) and g.name != '__init__']
     rq, ro = inc.methods.get('_read_questions'), inc.methods.get('_read_others')
-    if rq is None or ro is None or not setters:
+    if rq is None or ro is None or (flag and not setters):
         raise AnalysisError('anchor vanished: question / record readers or the setter of the QU flag')
     from_records = ctx.cg.closure([ro], include_deferred=False)
     from_questions = ctx.cg.closure([rq], include_deferred=False)
